@@ -352,20 +352,22 @@ def c08_place(run, model, rule="C08.place"):
         run.saw(ck.flow)
         snap = need(run, rule, ck, "SNAP", "call capturing the snapshots")
         pre = ck.one("PRE")
-        if snap is None or pre is None or len(ck.checked_bodies) != 1:
+        if snap is None or pre is None or not ck.checked_bodies:
             continue
-        body = ck.checked_bodies[0]
+        bodies = ck.checked_bodies  # more than one when a fast path calls the function on its own
         sn = snap["node"]
         # dominated by PRE, before BODY, never after BODY
         if pre["node"].id not in ck.dom[sn.id]:
             run.violation(rule, ck.fi.qual, "the snapshots can be captured without the preconditions having been evaluated", ck.loc(sn), None, first_line(sn.stmt))
             continue
-        after_body = ck.gg.reach(normal_succ(body["node"]))
+        after_body = set()
+        for body in bodies:
+            after_body |= ck.gg.reach(normal_succ(body["node"]))
         if sn.id in after_body:
             run.violation(rule, ck.fi.qual, "the snapshots are captured after the body ran", ck.loc(sn), None, first_line(sn.stmt))
             continue
         after_snap = ck.gg.reach(normal_succ(sn))
-        if body["node"].id not in after_snap:
+        if not any(body["node"].id in after_snap for body in bodies):
             run.violation(rule, ck.fi.qual, "the body does not follow the capture", ck.loc(sn), None, first_line(sn.stmt))
             continue
         if pre["node"].id in after_snap:
@@ -392,7 +394,7 @@ def c08_place(run, model, rule="C08.place"):
         for ev in [ck.kwargs_validator, ck.resolved_validator]:
             if ev is not None:
                 req.append((ck.result_term(ev), False))
-        suff = ck.gg.sufficient(starts, [sn.id], [body["node"].id], req)
+        suff = ck.gg.sufficient(starts, [sn.id], [body["node"].id for body in bodies], req)
         if not suff:
             run.violation(
                 rule,
